@@ -1,7 +1,7 @@
 """C11 — The stored database stays a well-formed Engine library.  Assembled from a schema-1.x part and a schema-2.x part."""
 from props import _combine
 
-_combine.install(globals(), "C11", ["C11_v1", "C11_v2"], dict(
+_combine.install(globals(), "C11", ["C11_v1", "C11_v2", "C11_v2_tracks"], dict(
     text="",
     note="see design/C11.md",
     technique="Lean 4 refinement / invariant theorems over executable models of both schema generations + "
